@@ -7,15 +7,45 @@ pub fn read_message<R: Read>(r: &mut R) -> Result<Message, RepeError> {
     let mut hdr_buf = [0u8; HEADER_SIZE];
     read_exact(r, &mut hdr_buf)?;
     let header = Header::decode(&hdr_buf)?;
-    let mut query = vec![0u8; header.query_length as usize];
+    let mut query = zeroed_payload(header.query_length)?;
     if !query.is_empty() {
         read_exact(r, &mut query)?;
     }
-    let mut body = vec![0u8; header.body_length as usize];
+    let mut body = zeroed_payload(header.body_length)?;
     if !body.is_empty() {
         read_exact(r, &mut body)?;
     }
     Message::new(header, query, body)
+}
+
+/// Allocate a zero-filled payload buffer of a length declared by the peer.
+///
+/// The length comes straight off the wire, so the allocation is fallible: a
+/// declared length that cannot be allocated is an error for this one message,
+/// not a process abort (`vec![0; n]` aborts on allocation failure and panics on
+/// capacity overflow). One allocation, exactly like `vec![0u8; n]`.
+pub(crate) fn zeroed_payload(len: u64) -> Result<Vec<u8>, RepeError> {
+    let mut buf = Vec::new();
+    grow_zeroed(&mut buf, len)?;
+    Ok(buf)
+}
+
+/// Resize `buf` to `len` zero-filled bytes, reserving fallibly (see
+/// [`zeroed_payload`]). `len` is a wire-declared length.
+pub(crate) fn grow_zeroed(buf: &mut Vec<u8>, len: u64) -> Result<(), RepeError> {
+    let unallocatable = || {
+        RepeError::Io(std::io::Error::new(
+            std::io::ErrorKind::OutOfMemory,
+            format!("cannot allocate {len} bytes for a declared frame"),
+        ))
+    };
+    let len = usize::try_from(len).map_err(|_| unallocatable())?;
+    if let Some(additional) = len.checked_sub(buf.len()) {
+        buf.try_reserve_exact(additional)
+            .map_err(|_| unallocatable())?;
+    }
+    buf.resize(len, 0);
+    Ok(())
 }
 
 /// Read a full REPE message frame into `buf`, reusing its allocation across
@@ -34,9 +64,9 @@ pub fn read_message_into<R: Read>(r: &mut R, buf: &mut Vec<u8>) -> Result<(), Re
     buf.resize(HEADER_SIZE, 0);
     read_exact(r, &mut buf[..HEADER_SIZE])?;
     let header = Header::decode(&buf[..HEADER_SIZE])?;
-    let total = HEADER_SIZE + header.query_length as usize + header.body_length as usize;
-    buf.resize(total, 0);
-    read_exact(r, &mut buf[HEADER_SIZE..total])?;
+    // `decode` verified `length == HEADER_SIZE + query_length + body_length`.
+    grow_zeroed(buf, header.length)?;
+    read_exact(r, &mut buf[HEADER_SIZE..])?;
     Ok(())
 }
 
